@@ -167,6 +167,8 @@ def capture(baseline=True):
 
     for name, m in _modules():
         level(m, 0)
+    if baseline:
+        _limits[0] = sys.getrecursionlimit()
     if baseline == 'import':
         _import_baseline[0] = levels
     elif baseline:
@@ -207,6 +209,9 @@ class isolated(object):
         return False
 
 
+_limits = [None]
+
+
 def restore(levels=None):
     """Put the captured state back.  Returns the number of things that had changed
     (0 on a tree that keeps no process-wide state)."""
@@ -215,6 +220,10 @@ def restore(levels=None):
     if levels is None:
         return 0
     changed = 0
+    # interpreter-wide settings a retrieval might leave altered
+    if _limits[0] is not None and sys.getrecursionlimit() != _limits[0]:
+        sys.setrecursionlimit(_limits[0])
+        changed += 1
     for owner, values, contents in levels:
         ns = _namespace_of(owner)
         if ns is None:
